@@ -337,7 +337,7 @@ fn main() {
         "C02" => bridge::ORDER | bridge::CONSERVE,
         "C03" => bridge::WRITE,
         "C08" => bridge::WRITE | bridge::COWSEM,
-        "C09" => bridge::CONSERVE,
+        "C09" => bridge::CONSERVE | bridge::WRITE,
         _ => u32::MAX,
     };
     bridge::OWNED.store(owned, Ordering::Relaxed);
